@@ -700,6 +700,37 @@ def evaluate(case, native):
             return True, (f'E1504 is {"reported" if got else "not reported"} for location indices {case["indices"]} and a {case["size"]}x{case["size"]} matrix; the documented check '
                           f'(max location index + 1 == matrix size) is {"broken" if want else "satisfied"}')
         return False, 'E1504 agrees with the documented rule'
+    if kind == 'registry':
+        groups, in_use, target, op = case['groups'], set(case['in_use']), case['target'], case['op']
+        everyone = [f'v{g}_{i}' for g, size in enumerate(groups) for i in range(size)]
+        avail = set(everyone) - in_use
+        exp_results, exp_avail, exp_copy = [], set(avail), None
+        if op == 'use':
+            exp_results = [target in avail]; exp_avail.discard(target)
+        elif op == 'free':
+            exp_results = [target not in avail]; exp_avail.add(target)
+        elif op == 'use-twice':
+            exp_results = [target in avail, False]; exp_avail.discard(target)
+        elif op == 'copy':
+            exp_results = [target in avail]; exp_copy = sorted(avail - {target})
+        elif op == 'slice':
+            keep = set(case['keep'])
+            exp_results = [target in avail and target in keep]; exp_copy = sorted((avail & keep) - {target})
+            if native['slice_all'] != sorted(keep):
+                return True, f'the slice keeping {sorted(keep)} knows the actors {native["slice_all"]}'
+        if native['results'] != exp_results:
+            return True, f'registry {op}({target}) with {sorted(in_use)} in use answered {native["results"]}, expected {exp_results}'
+        if native['available'] != sorted(exp_avail):
+            return True, f'after {op}({target}) with {sorted(in_use)} in use the registry offers {native["available"]}, expected {sorted(exp_avail)}'
+        if exp_copy is not None and native['copy_available'] != exp_copy:
+            return True, f'the {"slice" if op == "slice" else "deep copy"} offers {native["copy_available"]} after use({target}) on it, expected {exp_copy}'
+        for nxt in native['next']:
+            for g, size in enumerate(groups):
+                members = {f'v{g}_{i}' for i in range(size)}
+                picked = [x for x in nxt if x in members]
+                if len(picked) != (1 if members & exp_avail else 0) or any(x not in exp_avail for x in picked):
+                    return True, f'next() yields {nxt} while {sorted(exp_avail)} are available (group {g})'
+        return False, 'registry bookkeeping agrees with the reference'
     if kind == 'statistic_sum':
         for k_ in ('cost', 'distance', 'duration', 'driving', 'serving', 'waiting', 'break_time', 'commuting', 'parking'):
             want = case['a'][k_] + case['b'][k_]
